@@ -32,9 +32,24 @@ Record global := mkGlobal {
 Record allowed_write := mkAllowed { aw_global : string; aw_fn : string; aw_guard : string }.
 Definition sdf_guard : string :=
   "process-wide lifecycle call: once before / after all SDF use, by contract never concurrent with any SDF_* call".
+(* hidden static state of libc functions that need not be re-entrant (rows "libc:<function>" of the table) *)
+Definition print_guard : string :=
+  "explicit print routine (human-readable date via ctime): not an operation of the concurrent workload of the property; two threads printing at once share ctime's buffer (ctime_r would remove it)".
+Definition errmsg_guard : string :=
+  "error path only: the message text is printed, never stored; glibc strerror/dlerror use thread-local or constant storage".
+Definition http_guard : string :=
+  "http_get utility (CRL / OCSP fetch): name resolution through gethostbyname, not part of the property's operations".
 Definition allow_list : list allowed_write := [
   mkAllowed "sdf_method" "SDF_LoadLibrary" sdf_guard; mkAllowed "sdf_method" "SDF_UnloadLibrary" sdf_guard;
-  mkAllowed "sdf_vendor" "SDF_LoadLibrary" sdf_guard; mkAllowed "sdf_vendor" "SDF_UnloadLibrary" sdf_guard ].
+  mkAllowed "sdf_vendor" "SDF_LoadLibrary" sdf_guard; mkAllowed "sdf_vendor" "SDF_UnloadLibrary" sdf_guard;
+  mkAllowed "libc:ctime" "tls_random_print" print_guard; mkAllowed "libc:ctime" "x509_validity_print" print_guard;
+  mkAllowed "libc:ctime" "x509_crl_entry_ext_print" print_guard; mkAllowed "libc:ctime" "x509_revoked_cert_print" print_guard;
+  mkAllowed "libc:ctime" "x509_tbs_crl_print" print_guard;
+  mkAllowed "libc:strerror" "tls_socket_create" errmsg_guard; mkAllowed "libc:strerror" "tls_socket_connect" errmsg_guard;
+  mkAllowed "libc:strerror" "tls_socket_bind" errmsg_guard; mkAllowed "libc:strerror" "tls_socket_listen" errmsg_guard;
+  mkAllowed "libc:strerror" "tls_socket_accept" errmsg_guard;
+  mkAllowed "libc:dlerror" "SDF_METHOD_load_library" sdf_guard;
+  mkAllowed "libc:gethostbyname" "http_get" http_guard ].
 Definition lifecycle_functions : list string := map aw_fn allow_list.
 
 Definition allows (g : string) (fn : string) (a : allowed_write) : bool := String.eqb g (aw_global a) && String.eqb fn (aw_fn a).
